@@ -24,7 +24,7 @@ claimed.update({
  "C16": dict(text="Bounded symbolic verification of Positional (StructOf/FuncOf/MakeFunc through the reflect model, arity 2, symbolic params in array and object form), Args (decode/encode) and Obj (decode, every map order) at JSON-token level.", ref="9.2 (C16)", note="arity 2; reflect modelled; json stub; one harness runs two concurrent invocations with preemption bound 1"),
  "C18": dict(text="Bounded symbolic run of the real Bridge.ServeHTTP over a real server.Local (threads) with symbolic members/ids; response body parsed back and matched to the request's calls; two concurrent callers with identical ids.", ref="4 (C18)", note="<= 2 members (thorough 3); HTTP stack replaced by recorders; delay bound 2; thorough tier of the concurrent harness with preemption bound 1"),
  "C19": dict(text="Bounded symbolic verification of ParseQuery/ParseBasic value typing, totality and marshalability; the Getter's status mapping over a real Local; and a real Client over the real jhttp.Channel against a real Bridge through an in-process HTTPClient (results, body closing, no thread left after Close).", ref="4 (C19), 9.2", note="strconv/base64 via representative strings; ParseForm and http.NewRequest stubs; real net/http transport outside"),
- "C20": dict(text="Bounded symbolic run of the real Loop with real servers as engine threads over a scripted accepter; service/Finish accounting and return value asserted on every explored schedule.", ref="4 (C20)", note="<= 2 connections (thorough 3); delay bound 2 (thorough 3); NetAccepter run over a scripted in-memory net.Listener (real sockets outside)"),
+ "C20": dict(text="Bounded symbolic run of the real Loop with real servers as engine threads over a scripted accepter; service/Finish accounting and return value asserted on every explored schedule.", ref="4 (C20)", note="<= 2 connections; delay bound 2 (thorough 3); NetAccepter run over a scripted in-memory net.Listener (real sockets outside)"),
  "C11": dict(text="Bounded symbolic round trip through the real Send, the real bufio.Reader (from source) and the real Recv for Split (symbolic / several split bytes) and Header framings under symbolic fragmentation, and through the Direct framing (engine channels); record bytes symbolic.", ref="4 (C11)", note="records <= 3 bytes (+ one long), 16-byte bufio buffer, listed chunk policies; RawJSON outside"),
  "C01": dict(text="Bounded symbolic run of the real dispatcher closure (handler goroutines as engine threads) with symbolic handler outcomes and ids; reply parsed back and compared per call.", ref="4 (C01)", note="batch <= 3; json stub; delay-bounded scheduler; the started-server harness of C03 and the filter step of C09 are part of this check"),
  "C04": dict(text=STEP + " - client pending set: matching by id text, id freshness, Batch order.", ref="4 (C04), 2.6", note="<= 2 pending in pre-state, Batch <= 3 (thorough 4); FormatInt as injective opaque token; json stub; plus two threaded NewClient runs over the public API"),
